@@ -33,7 +33,7 @@ import itertools
 import re
 from fractions import Fraction
 
-from ..absval import Poly, Rat, ratfun
+from ..absval import Poly, Rat, eval_pred, ratfun
 from ..cfg import CFG
 from ..core import (AnalysisError, call_name, const_str, find_calls, kwarg,
                     last_attr, names_in, short, stmts_of, txt, walk)
@@ -680,6 +680,7 @@ def r184(ctx, repo):
                f"(expected {pos.replace('[i]', '[ii]')} / pix: centroid "
                f"in µm, contour in pixels)", node=(bad or [hits[0][0]])[0],
                label=f"centroid in pixels, column {k}")
+    _min_points(ctx, repo, gv, calls)
     v1, v2 = Rat(Poly.sym("V1")), Rat(Poly.sym("V2"))
     half = Rat(Poly.const(Fraction(1, 2)))
     avg = []
@@ -700,6 +701,64 @@ def r184(ctx, repo):
     ctx.ob("R18.4", ok, "the result is the mean of both halves" if ok else
            "the two half volumes are not averaged", node=avg[0][0] if avg
            else gv, label="average of halves")
+
+
+def _min_points(ctx, repo, gv, calls):
+    """the guard in front of the volume computation against the law the
+    source states next to it ("If the contour has less than N pixels, the
+    computation will fail" -> evaluated for n = N-1, N, N+1)"""
+    src = repo.src(VOL).splitlines()
+    lo = gv.lineno
+    hi = max(getattr(n, "end_lineno", lo) or lo for n in ast.walk(gv))
+    stated = None
+    for line in src[lo - 1:hi]:
+        m = re.search(r"#.*(?:less|fewer) than (\d+) (?:pixels|points)",
+                      line)
+        if m:
+            stated = int(m.group(1))
+    nmin = stated if stated is not None else 4
+
+    def size_of(e):
+        t = txt(e)
+        return t.endswith(".shape[0]") or (t.startswith("len(")
+                                           and t.endswith(")"))
+    guard = polarity = None
+    for n in walk(gv):
+        if isinstance(n, ast.If) and any(size_of(x) for x in ast.walk(
+                n.test)) and isinstance(n.test, (ast.Compare, ast.BoolOp,
+                                                 ast.UnaryOp)):
+            inside = all(any(c is x for x in ast.walk(ast.Module(
+                body=n.body, type_ignores=[]))) for c in calls)
+            skips = any(isinstance(x, (ast.Continue, ast.Return))
+                        for st in n.body for x in ast.walk(st)) and not any(
+                any(c is x for x in ast.walk(st)) for st in n.body
+                for c in calls)
+            if inside:
+                guard, polarity = n, True
+            elif skips:
+                guard, polarity = n, False
+    if guard is None:
+        raise AnalysisError("get_volume: point-count guard of the volume "
+                            "computation not found")
+
+    def res(e):
+        return "n" if size_of(e) else None
+    bad = []
+    for k in (nmin - 1, nmin, nmin + 1):
+        runs = bool(eval_pred(guard.test, {"n": float(k)}, res)) == polarity
+        if runs != (k >= nmin):
+            bad.append((k, runs))
+    ctx.ob("R18.4", not bad,
+           f"contours of at least {nmin} points are evaluated, shorter ones "
+           f"give nan (guard evaluated for n = {nmin - 1}, {nmin}, "
+           f"{nmin + 1})" if not bad else
+           f"guard `{txt(guard.test)}`: a contour of {bad[0][0]} points is "
+           + ("evaluated" if bad[0][1] else "skipped (nan)")
+           + f", but the source states that only contours of less than "
+           f"{nmin} points cannot be computed (a {nmin}-point contour - "
+           f"rectangle, diamond, 2x2 mask - has a volume)",
+           node=guard, label="minimum number of contour points")
+
 
 
 def _bound(t):
@@ -1295,6 +1354,156 @@ def r187(ctx, repo):
                else f, label="ratio sqrt(mu20/mu02)")
 
 
+# ----------------------------------------------------------------------
+# R18.8 ownership: in-place updates act on fresh allocations only
+
+FEATURE_FILES = ["dclab/features/contour.py", VOL, INERT, BRIGHT, BC, PERC,
+                 CT]
+FRESH_CALLS = {"np.copy", "np.zeros", "np.ones", "np.empty", "np.full",
+               "np.zeros_like", "np.ones_like", "np.empty_like",
+               "np.full_like", "np.arange", "np.linspace", "np.resize",
+               "np.roll", "np.stack", "np.concatenate", "np.diff",
+               "np.where", "np.unwrap", "np.sqrt", "np.cos", "np.sin",
+               "np.arctan2", "np.abs", "np.round", "np.prod", "np.sum",
+               "np.mean", "np.std", "np.percentile", "np.isin", "np.unique",
+               "dict", "list", "deque", "sorted", "set", "range"}
+VIEW_CALLS = {"np.asarray", "np.asanyarray", "np.atleast_1d",
+              "np.atleast_2d", "np.ravel", "np.reshape", "np.squeeze",
+              "np.transpose", "np.ascontiguousarray", "np.asfarray",
+              "np.require"}
+VIEW_METHODS = {"view", "reshape", "ravel", "squeeze", "transpose",
+                "swapaxes", "T"}
+
+
+def _falsy_copy(call):
+    c = kwarg(call, "copy")
+    return c is not None and not (isinstance(c, ast.Constant)
+                                  and c.value is True)
+
+
+def r188(ctx, repo):
+    n_mut = 0
+    for rel in FEATURE_FILES:
+        for q, fn in repo.all_functions(rel):
+            a = fn.args
+            params = {x.arg for x in a.args + a.kwonlyargs
+                      if x.arg not in ("self", "cls")}
+            defs = {}
+            for n in walk(fn):
+                if isinstance(n, ast.Assign):
+                    for t in n.targets:
+                        if isinstance(t, ast.Name):
+                            defs.setdefault(t.id, []).append(n.value)
+                        elif isinstance(t, (ast.Tuple, ast.List)):
+                            for e in t.elts:
+                                if isinstance(e, ast.Name):
+                                    defs.setdefault(e.id, []).append(
+                                        ("unpack", n.value))
+                elif isinstance(n, ast.For):
+                    for b in _bound(n.target):
+                        defs.setdefault(b, []).append(("iter", n.iter))
+
+            def shares(e, seen=()):
+                """may `e` share memory with an argument of the function?
+                -> description of the path or None"""
+                if isinstance(e, tuple):
+                    kind, v = e
+                    if kind == "iter":
+                        return shares(v, seen)
+                    return None          # results of other functions
+                if isinstance(e, ast.Name):
+                    if e.id in seen:
+                        return None
+                    if e.id in params and e.id not in defs:
+                        return f"the argument `{e.id}`"
+                    hits = [shares(v, seen + (e.id,))
+                            for v in defs.get(e.id, [])]
+                    if e.id in params:
+                        hits.append(f"the argument `{e.id}`")
+                    hits = [h for h in hits if h]
+                    return hits[0] if hits else None
+                if isinstance(e, ast.Subscript):
+                    h = shares(e.value, seen)
+                    return h and f"an element/view of {h}"
+                if isinstance(e, (ast.List, ast.Tuple)):
+                    hs = [shares(x, seen) for x in e.elts]
+                    hs = [h for h in hs if h]
+                    return hs[0] if hs else None
+                if isinstance(e, ast.Attribute) and e.attr in VIEW_METHODS:
+                    return shares(e.value, seen)
+                if isinstance(e, ast.Call):
+                    cn = call_name(e) or ""
+                    if cn in ("np.array",):
+                        if _falsy_copy(e) and e.args:
+                            h = shares(e.args[0], seen)
+                            return h and f"np.array(copy=False) of {h}"
+                        return None
+                    if cn in VIEW_CALLS and e.args:
+                        h = shares(e.args[0], seen)
+                        return h and f"{cn}() of {h} (no copy when the " \
+                            f"type already matches)"
+                    if isinstance(e.func, ast.Attribute):
+                        if e.func.attr in VIEW_METHODS:
+                            return shares(e.func.value, seen)
+                        if e.func.attr == "astype" and _falsy_copy(e):
+                            return shares(e.func.value, seen)
+                    return None
+                return None      # arithmetic, constants, comprehensions
+
+            muts = []
+            for n in walk(fn):
+                if isinstance(n, ast.AugAssign):
+                    muts.append((n, n.target))
+                elif isinstance(n, ast.Assign):
+                    for t in n.targets:
+                        for e in (t.elts if isinstance(
+                                t, (ast.Tuple, ast.List)) else [t]):
+                            if isinstance(e, ast.Subscript):
+                                muts.append((n, e))
+                elif isinstance(n, ast.Call):
+                    o = kwarg(n, "out")
+                    if o is not None:
+                        muts.append((n, o))
+                    if isinstance(n.func, ast.Attribute) and n.func.attr in (
+                            "sort", "fill", "resize", "itemset", "put",
+                            "partition", "setfield", "byteswap") \
+                            and not n.keywords and not (
+                                isinstance(n.func.value, ast.Name)
+                                and n.func.value.id in ("np", "numpy")):
+                        muts.append((n, n.func.value))
+            per_base = {}
+            for node, target in muts:
+                base = target
+                while isinstance(base, ast.Subscript):
+                    base = base.value
+                if not isinstance(base, ast.Name):
+                    continue
+                if isinstance(target, ast.Name) and isinstance(
+                        node, ast.AugAssign):
+                    vals = defs.get(target.id, [])
+                    if vals and all(isinstance(v, ast.Constant)
+                                    for v in vals):
+                        continue       # rebinding of a scalar
+                n_mut += 1
+                per_base.setdefault(base.id, []).append((node, base))
+            for name, items in per_base.items():
+                h = shares(items[0][1])
+                node = items[0][0]
+                ctx.ob("R18.8", h is None,
+                       f"{len(items)} in-place update(s) of `{name}` act on "
+                       f"an array that {q} allocated itself" if h is None
+                       else
+                       f"`{short(node, 50)}` modifies `{name}` in place, "
+                       f"which is {h}: the caller's data are changed "
+                       f"(features computed later from the same "
+                       f"contour/image differ)", node=node,
+                       key=f"{rel}::{q}::in-place update of {name}")
+    if n_mut < 10:
+        raise AnalysisError("in-place updates of the feature functions not "
+                            "found")
+
+
+
 def run(ctx):
     repo = ctx.repo
     ctx.rule("R18.1", "optional array-valued bg_off is tested with `is (not) "
@@ -1310,6 +1519,9 @@ def run(ctx):
     ctx.rule("R18.6", "r and z of each vol_revolve call follow the same "
              "orientation; the mirrored half is reversed", minimum=4)
     ctx.rule("R18.7", "axis-swap symmetry of contour moments", minimum=20)
+    ctx.rule("R18.8", "in-place updates in the feature functions act on "
+             "arrays the function allocated, never on (views of) its "
+             "arguments", minimum=8)
     r181(ctx, repo)
     r182(ctx, repo)
     r183(ctx, repo)
@@ -1317,6 +1529,7 @@ def run(ctx):
     r186(ctx, repo)
     r185(ctx, repo)
     r187(ctx, repo)
+    r188(ctx, repo)
 
 
 MUTANTS = [
@@ -1625,4 +1838,63 @@ MUTANTS = list(MUTANTS) + [
      ("    vol = np.sum(v) * point_scale ** 3\n",
       "    scale_cubed = point_scale ** 2\n"
       "    vol = np.sum(v) * scale_cubed\n"), "R18.4"),
+]
+
+# round-2 seeded changes /verif/seeded/C18_4 .. C18_6 and relatives
+_PRNC_COPY = "        cc = np.array(cont[ii], dtype=np.float64, copy=True)\n"
+_INV_RET = "    return np.linalg.inv(crosstalk)\n"
+
+MUTANTS = list(MUTANTS) + [
+    ("volume: four-point contours skipped (seeded)", VOL,
+     ("        if cc.shape[0] >= 4:", "        if cc.shape[0] > 4:"),
+     "R18.4"),
+    ("volume: three-point contours evaluated", VOL,
+     ("        if cc.shape[0] >= 4:", "        if cc.shape[0] >= 3:"),
+     "R18.4"),
+    ("crosstalk: negative determinant refused (seeded)", CT,
+     (_INV_RET,
+      "    if np.linalg.det(crosstalk) <= 0:\n"
+      "        raise ValueError(\"The crosstalk matrix is singular!\")\n"
+      + _INV_RET), "R18.5"),
+    ("crosstalk: strong mutual spill refused", CT,
+     (_INV_RET,
+      "    if ct12 * ct21 >= 1:\n"
+      "        raise ValueError(\"Spill too strong!\")\n" + _INV_RET),
+     "R18.5"),
+    ("prnc rotates the caller's contour: asarray (seeded)", INERT,
+     (_PRNC_COPY, "        cc = np.asarray(cont[ii], dtype=np.float64)\n"),
+     "R18.8"),
+    ("prnc rotates the caller's contour: copy=False", INERT,
+     (_PRNC_COPY,
+      "        cc = np.array(cont[ii], dtype=np.float64, copy=False)\n"),
+     "R18.8"),
+    ("prnc rotates the caller's contour: no conversion", INERT,
+     (_PRNC_COPY, "        cc = cont[ii]\n"), "R18.8"),
+    ("bright_bc shifts the caller's offset array", BC,
+     ("        if bg_off is not None:\n            avg -= bg_off\n",
+      "        if bg_off is not None:\n            bg_off *= -1\n"
+      "            avg += bg_off\n"), "R18.8"),
+    ("volume: contour shifted in place", VOL,
+     ("            contour_x = cc[:, 0] - pos_x[ii] / pix\n",
+      "            cc[:, 0] -= pos_x[ii] / pix\n"
+      "            contour_x = cc[:, 0]\n"), "R18."),
+]
+
+TWINS = list(TWINS) + [
+    ("volume: short contours skipped with continue", VOL,
+     lambda s: s.replace(
+         "        if cc.shape[0] >= 4:\n",
+         "        if len(cc) < 4:\n            continue\n        if True:\n")),
+    ("volume: guard mirrored", VOL,
+     ("        if cc.shape[0] >= 4:", "        if not cc.shape[0] < 4:")),
+    ("crosstalk: exactly singular matrix refused", CT,
+     (_INV_RET,
+      "    if np.linalg.det(crosstalk) == 0:\n"
+      "        raise ValueError(\"The crosstalk matrix is singular!\")\n"
+      + _INV_RET)),
+    ("prnc: copy by default of np.array", INERT,
+     (_PRNC_COPY, "        cc = np.array(cont[ii], dtype=np.float64)\n")),
+    ("prnc: copy via astype", INERT,
+     (_PRNC_COPY,
+      "        cc = np.asarray(cont[ii]).astype(np.float64)\n")),
 ]
